@@ -8,6 +8,8 @@ Line-protocol driver for the `adapt` cluster.
       ftab     `;`-separated `oid@prov=n|r` (prov = `.`-joined offer ids of the adaptee, `-` = the source object),
                `#k=n|r` (the k-th factory call of the adapt call returns None / raises ValueError); `-` = empty
       queries  a s t | d s t | s s t | m t p | t <I|S|A> <mode> <allowNone> s t     (s = type index, `3n` = the object None of type 3)
+           R a c P'   late registration types[a].register(types[c]); P' = the issubclass table from now on
+           h …        history on one trait (see below)
   so|n|<lt rows>|<perm>    CPython list.sort(key=cmp_to_key) with an arbitrary `cmp<0` table
   hq|<ops>                 heapq: `p a b` push (a,b,counter) ; `o` pop → counter popped
 
@@ -256,17 +258,26 @@ def runHistory (pm : List (List Bool)) (m : List (List Nat)) (os : List OfferSpe
     | _, _, _, _ => "bad-query"
   | _ => "bad-query"
 
+/-- Queries run in order.  `R <a> <c> <P'>` = `types[a].register(types[c])` executed now (late ABC
+registration / `@provides` after the fact): every later query sees the issubclass table `P'` —
+each `adapt` call is computed from the subclass relation current at that call. -/
+def runQueries (m : List (List Nat)) (os : List OfferSpec) (ft : FTab) :
+    List (List Bool) → List String → List String
+  | _, [] => []
+  | pm, q :: qs =>
+    match words q with
+    | ["R", _, _, p'] => "ok" :: runQueries m os ft (parseP p') qs
+    | "h" :: ws => runHistory pm m os ft ws :: runQueries m os ft pm qs
+    | _ =>
+      let cfg : Cfg :=
+        { provides := lookupP pm, supers := fun t => m.getD t [], groups := groupsOf (os.map (·.offer)) }
+      runQuery cfg ft q :: runQueries m os ft pm qs
+
 def handleA (p m offers ftab queries : String) : String :=
   match parseM m, parseOffers offers, parseFTab ftab with
   | some m, some os, some ft =>
-    let pm := parseP p
-    let cfg : Cfg :=
-      { provides := lookupP pm, supers := fun t => m.getD t [], groups := groupsOf (os.map (·.offer)) }
     let ft := { ft with ident := (os.filter (·.ident)).map (·.offer.id) }
-    " ; ".intercalate ((fields queries ";").map (fun q =>
-      match words q with
-      | "h" :: ws => runHistory pm m os ft ws
-      | _ => runQuery cfg ft q))
+    " ; ".intercalate (runQueries m os ft (parseP p) (fields queries ";"))
   | _, _, _ => "bad-case"
 
 /-- `so`: sort `perm` with `lt i j` read off the table. -/
